@@ -46,6 +46,32 @@ CHECKS = {
        "strings; plus a property-level round-trip oracle run on the implementation alone.",
   note=COMMON_NOTE + "hex crate / core::fmt / from_str_radix are modelled as digit-list functions (incl. the accepted leading '+'). Multicast mc_key (AES wrap) setter and certification payloads without accessors are compared byte-wise only.",
   tech="machine-checked proof in Coq (exhaustive byte sweeps + LE/hex induction lemmas) + differential correspondence + round-trip oracle on the implementation", ref="6 C19"),
+ "C05": dict(
+  text="Coq theorems (Props/C05.v): for ALL last < 2^32 and wire < 2^16, next_fcnt_down accepts with n iff n is the unique counter = wire (mod 2^16) with last < n <= last+16384 "
+       "and n < 2^32 (bit-level lemmas + linear arithmetic, no enumeration); never backwards, no replay; the session model acts on a frame exactly under the reference rule "
+       "spec_accepts (well-formed, fits the data rate, reference MIC for the fresh counter) -- otherwise identity -- and then remembers n, decrypts with n, restarts the ADR count. "
+       "Tied to the code: the real next_fcnt_down (hook) against the model on digests of all 2^16 wire values for `last` on a stride through +-70000 of every boundary class; "
+       "MAC-level histories (model vs Mac through the hook, state snapshot after every step) with counters walking across 16-bit epochs up to 2^32-1, replays, reordering, "
+       "far-future, wrong-epoch MIC and forged frames, Class A and C paths; every response also judged by an independent python reference (own AES-CMAC).",
+  note=COMMON_NOTE + "Hook lorawan_device::mac::verif (cfg lora_rs_verif) drives the crate-private Mac and dumps its state; it only copies fields.",
+  tech="machine-checked proof in Coq (counter arithmetic for all inputs; acceptance = reference rule) + MAC-history correspondence through a read-only hook + independent reference oracle", ref="6 C05"),
+ "C06": dict(
+  text="Coq theorems (Props/C06.v), MAC core: every send hands out exactly the current FCntUp and does not move it; rx2_complete moves it by +1 or reports SessionExpired at 2^32-1 "
+       "(never wraps); a receive never rewinds it. PARTIAL for the front-ends: that every uplink is concluded before the next send is not a theorem (no front-end model); it is "
+       "exercised by driving async_device (incl. Class C) and nb_device with a scripted radio, a radio fault injected at every radio-call position of send/RX1-hit/RX2-hit/"
+       "timeout/invalid-frame histories from counters 0, 0xFFFF and 2^32-2, decoding every frame handed to the radio with an independent codec and requiring strictly "
+       "increasing 32-bit counters up to the reported session expiry.",
+  note=COMMON_NOTE + "The front-end layer (async_device/mod.rs, nb_device/state.rs) is checked by fault enumeration, not proved; the executor is a 20-line no-waker poller.",
+  tech="machine-checked proof in Coq for the MAC core + fault-position enumeration on both front-ends with an independent decoding oracle", ref="6 C06"),
+ "C07": dict(
+  text="Coq theorems (Props/C07.v): for every session state, configuration, channel plan and byte string: if the reference codec does not accept the frame (spec_accepts: "
+       "reference MIC + freshness) and it is not oversized, handle_rx returns EXACTLY the same session, configuration, region and buffer with response NoUpdate (state equality, "
+       "hence twin runs stay equal at every step); an oversized frame only ends a Class A window like a timeout and is ignored in Class C; an invalid JoinAccept leaves the MAC "
+       "unchanged. Tied to the code by model/implementation MAC histories and by running twin histories on the implementation that differ only by frames rejected by "
+       "construction (random bytes, replays, other-session frames, MIC flips, far-future, wrong-key JoinAccepts, forged MAC commands) inserted at receive opportunities of "
+       "histories that create sticky answers / owed ACKs / ADR counts, comparing every later output and state snapshot.",
+  note=COMMON_NOTE,
+  tech="machine-checked proof in Coq (reject = identity, state equality) + twin-run (2-safety) differential runs on the implementation", ref="6 C07"),
  "C15": dict(
   text="Coq theorems: every driver's LDRO decision and the bit programmed into the chip equal the airtime calculator's, and that "
        "decision is 'on' exactly when 2^SF*10^6 >= 16384*BW (exact arithmetic) for all SF 5..12 x all 10 bandwidths. The models are "
